@@ -165,7 +165,7 @@ func cholCase(t *vlib.T, n int, f symFamInfo, v int, rep string, cfg solveCfg) {
 	if !relClose(math.Exp(ch.LogDet()), ref, tol) {
 		t.Failf("LogDet = %v, reference det %v", ch.LogDet(), ref)
 	}
-	condBand(t, "Cholesky.Cond", ch.Cond(), kinf, 3, 1.01)
+	condBand(t, "Cholesky.Cond", ch.Cond(), kinf, lowCond(v), 1.01)
 	s.run(t, cfg)
 
 	// InverseTo
@@ -293,7 +293,7 @@ func pcholCase(t *vlib.T, n int, f symFamInfo, v int, rep string, cfg solveCfg) 
 	s := &solver{name: "PivotedCholesky", A: A, aliasOK: true, fullRank: true,
 		solve: noTrans(ch.SolveTo), solveVec: noTransVec(ch.SolveVecTo), cond: ch.Cond}
 	s.prepare()
-	condBand(t, "PivotedCholesky.Cond", ch.Cond(), normInf(A)*normInf(s.pinv), 3, 1.01)
+	condBand(t, "PivotedCholesky.Cond", ch.Cond(), normInf(A)*normInf(s.pinv), lowCond(v), 1.01)
 	s.run(t, cfg)
 }
 
@@ -396,6 +396,7 @@ func bandCholCase(t *vlib.T, n, k, v int, rep string, cfg solveCfg) {
 	if !relClose(math.Exp(ch.LogDet()), ref, tol) {
 		t.Failf("LogDet = %v, reference det %v", ch.LogDet(), ref)
 	}
+	condBand(t, "BandCholesky.Cond", ch.Cond(), kinf, 100, 1.01)
 	s.run(t, cfg)
 	// agreement with the dense Cholesky of the same matrix
 	var dc mat.Cholesky
@@ -407,7 +408,7 @@ func bandCholCase(t *vlib.T, n, k, v int, rep string, cfg solveCfg) {
 		t.Failf("Det: band %v, dense %v", ch.Det(), dc.Det())
 	}
 	// same estimator (Pocon/Pbcon) on the same matrix and norm: the two estimates agree closely
-	if bc, c := ch.Cond(), dc.Cond(); !(bc >= c/1.5 && bc <= c*1.5) {
+	if bc, c := ch.Cond(), dc.Cond(); v < 1000 && !(bc >= c/1.5 && bc <= c*1.5) {
 		finding(t, "cond-vs-dense", "bandcholesky-cond-uses-norm-of-factor", "BandCholesky.Cond = %.6g but Cholesky.Cond of the same matrix = %.6g (reference %.6g) n=%d k=%d", bc, c, kinf, n, k)
 	}
 }
